@@ -400,6 +400,9 @@ class IntroVisitorIndirect(_ScopedVisitor):
 
     def visit_Call(self, node: ast.Call) -> Any:
         # _logger.debug(f"visit: {node} {dir(node)} {pformat(node)}")
+        # The arguments are evaluated before the call itself: what they load or keep comes first.
+        for arg in list(node.args) + [k.value for k in node.keywords]:
+            self.visit(arg)
         # The list of all the previous interactions.
         # Check the call for dds calls or sub_calls.
         fi_or_p = InspectFunctionIndirect.inspect_call(
@@ -411,7 +414,7 @@ class IntroVisitorIndirect(_ScopedVisitor):
         )
         if fi_or_p is not None:
             self.results.append(fi_or_p)
-        self.generic_visit(node)
+        self.visit(node.func)
 
     def visit_Name(self, node: ast.Name) -> Any:
         # Look at names of variables that are names imported in the context of the function (in the module) but that are
